@@ -1144,6 +1144,28 @@ func (rw *world) query(src string) (result slip.Object, err *sl.Err) {
 	return
 }
 
+// resolveCompiled reads the form afresh, compiles it (Code.Compile, what load and defun
+// bodies go through) and evaluates it: a qualified name has to mean the same then.
+func (rw *world) resolveCompiled(src string) outcome {
+	rw.evals++
+	var obj slip.Object
+	err := sl.Catch(func() {
+		code := slip.ReadString(src, rw.scope)
+		code.Compile()
+		obj = code.Eval(rw.scope, nil)
+	})
+	if err != nil {
+		return outcome{err: err.Class}
+	}
+	if n, ok := obj.(slip.Fixnum); ok {
+		return outcome{bound: true, val: int(n)}
+	}
+	if obj == slip.Unbound {
+		return outcome{}
+	}
+	return outcome{bound: true, val: -1}
+}
+
 // pkgD spells a package designator: quoted symbol, string, keyword of the
 // nickname, package object found by the upper-case name.
 func (rw *world) pkgD(p, v int) string {
@@ -1514,13 +1536,24 @@ func (rw *world) observe(x counter, w *model.World) *discrepancy {
 					// (upper case) or through funcall of the qualified symbol
 					if pi == 0 && (rot+q+vi)%2 == 0 {
 						alt, route := strings.ToUpper(rw.nicks[q])+sep+n.spell, "nickname"
+						compiled := false
 						if kind == model.Fun {
 							alt = "(" + alt + ")"
-							if (rot/2)%2 == 0 {
+							switch (rot / 2) % 4 {
+							case 0:
 								alt, route = fmt.Sprintf("(funcall '%s%s%s)", rw.names[q], sep, n.spell), "funcall"
+							case 2:
+								// the qualified call compiled before it is evaluated
+								alt, route, compiled = "("+rw.names[q]+sep+n.spell+")", "compiled", true
+							case 3:
+								// the qualified call in the body of a function made on the spot
+								alt, route = fmt.Sprintf("(funcall (lambda () (%s%s%s)))", rw.names[q], sep, n.spell), "lambda-body"
 							}
 						}
 						ao := rw.resolve(alt)
+						if compiled {
+							ao = rw.resolveCompiled(alt)
+						}
 						x.Cover("alt:" + via + ":" + route)
 						if !judge(q, qe, ao) {
 							note(&discrepancy{got: classify(w, q, qe, ao), kind: kind.String(), via: via + "/" + route,
